@@ -28,6 +28,9 @@ def run(chk: Check, model):
     chk.rule("C15.pure", "purity (A11): sample / reset / quantile / mean / pdf of both distribution classes have no effect outside the call")
     chk.rule("C15.quantile", "closed forms (A7): Deterministic -> its mean for every q; Normal -> ndtri(q) * scale + loc for every q; trainable -> min + alpha (max - min); "
                              "the mixture delegates to the grid routine on its own distribution; unknown distributions raise")
+    chk.rule("C15.grid", "mixture grid quantile (A4/A6, structure only): the CDF is evaluated on the same linspace(grid_min, grid_max, N) grid that the result indexes; the result is "
+                         "grid[first index with cdf > p] for the requested probabilities; the mixture fallback is sum(component cdf * weights); a grid that does not span the "
+                         "requested probabilities raises")
     chk.rule("C15.default", "default expected delay: nodes and connections default to float(delay_dist.quantile(0.99)) and assert it non-negative")
     chk.rule("C15.estimator", "estimator result: data with zero spread is classified deterministic for every mean and exported as Deterministic(mean); otherwise a mixture "
                               "with normalised weights (last operation) and scales exp(log scale) rescaled by the data's std and mean")
@@ -101,6 +104,55 @@ def run(chk: Check, model):
         chk.add("C15.quantile", f"TrainableDist.{name} == min + alpha (max - min)", r.ret == d_ref, f"{name} returns {T.show(r.ret)[:120]}", chk.loc(fi))
     fi, ev, r = _ev(model, "base.StaticDist.mean")
     chk.add("C15.quantile", "StaticDist.mean is the distribution's mean", r.ret == T.mk_call("self.dist.mean", []), f"mean returns {T.show(r.ret)[:100]}", chk.loc(fi))
+    # ---------------------------------------------------------------- mixture grid routine
+    fi, ev, r = _ev(model, "utils.mixture_distribution_quantiles")
+    G = T.mk_call("numpy.linspace", [S("grid_min"), S("grid_max")], [("num", T.mk_call("int", [S("N_grid_points")]))])
+    grid = r.env.get("base_grid", T.NONE)
+    if grid != G and not (grid[0] == "call" and T.call_name(grid) == "numpy.linspace" and grid[2][:2] == (S("grid_min"), S("grid_max"))):
+        chk.add("C15.grid", "grid = linspace(grid_min, grid_max, N)", False, f"grid = {T.show(grid)[:120]}", chk.loc(fi))
+    else:
+        chk.add("C15.grid", "grid = linspace(grid_min, grid_max, N)", True, "", chk.loc(fi))
+        G = grid
+    cdfs = [e for e in r.events if e.kind == "call" and e.name.endswith(".cdf")]
+    chk.add("C15.grid", "every CDF is evaluated on the grid", len(cdfs) == 2 and all(any(x == G for x in T.walk(e.args[0])) for e in cdfs if e.args),
+            f"cdf calls on {[T.show(e.args[0])[:80] for e in cdfs if e.args]}", chk.loc(fi))
+    cdf_grid = r.env.get("cdf_grid", T.NONE)
+    fb = T.assume(cdf_grid, ("sym", "exc1:NotImplementedError"), True) if cdf_grid[0] == "ite" else T.NONE
+    direct = cdf_grid[3] if cdf_grid[0] == "ite" else cdf_grid
+    ok = direct[0] == "call" and T.call_name(direct) == "dist.cdf"
+    okf = False
+    if cdf_grid[0] == "ite":
+        fb = cdf_grid[2]
+        okf = fb[0] == "call" and T.call_name(fb) == "numpy.sum" and dict(fb[3]).get("axis") == T.const(-1) and len(fb[2]) == 1
+        if okf:
+            prod = fb[2][0]
+            comp = [x for x in T.walk(prod) if x[0] == "call" and T.call_name(x) == "dist.components_distribution.cdf"]
+            w = [x for x in T.walk(prod) if x == S("dist.mixture_distribution.probs")]
+            okf = len(comp) >= 1 and len(w) >= 1 and prod == T.mul(comp[0], T.mk_index(S("dist.mixture_distribution.probs"), T.NONE))
+    chk.add("C15.grid", "cdf = dist.cdf(grid), fallback sum_k w_k cdf_k(grid) over the last axis", bool(ok and okf), f"cdf grid = {T.show(cdf_grid)[:260]}", chk.loc(fi))
+    clo = r.env.get("get_quantiles_for_one_observation", T.NONE)
+    ret = r.ret
+    ok = ret[0] == "call" and T.call_name(ret) == "numpy.apply_along_axis" and dict(ret[3]).get("func1d") == clo and dict(ret[3]).get("arr") == cdf_grid and dict(ret[3]).get("axis") == T.ZERO
+    chk.add("C15.grid", "the per-observation routine is applied along the grid axis of the cdf", bool(ok), f"result = {T.show(ret)[:200]}", chk.loc(fi))
+    if clo[0] == "closure":
+        q1 = ev.invoke(clo, [S("c")], r.frame)
+        P = r.env.get("probs_row_grid", T.NONE)
+        ok = q1[0] == "index" and q1[1] == G and q1[2][0] == "call" and T.call_name(q1[2]) == "numpy.argmax" and dict(q1[2][3]).get("axis") == T.ONE
+        cmpok = False
+        if ok:
+            c = q1[2][2][0]
+            cmpok = c in (T.mk_call("numpy.greater", [S("c"), P]), T.mk_call("numpy.less", [P, S("c")]), T.lt(P, S("c")))
+        chk.add("C15.grid", "quantile = grid[first index with cdf > p]", bool(ok and cmpok), f"per-observation result = {T.show(q1)[:240]}", chk.loc(fi))
+        chk.add("C15.grid", "probabilities compared are the requested ones", any(x[0] == "call" and T.call_name(x) in ("numpy.tile", "numpy.broadcast_to", "numpy.repeat") and x[2] and x[2][0] == S("probs") for x in T.walk(P)) or P == S("probs"), f"probs grid = {T.show(P)[:160]}", chk.loc(fi))
+    else:
+        chk.add("C15.grid", "quantile = grid[first index with cdf > p]", False, "per-observation routine not found", chk.loc(fi))
+    raises = [e for e in r.events if e.kind == "raise" and e.func == fi.qualname]
+    gc = r.env.get("grid_check", T.NONE)
+    rr = [e for e in raises if e.guard == T.mk_not(gc) or T.assume(e.guard, gc, False) == T.TRUE]
+    lo_ok = any(x[0] == "le0" or x[0] == "call" for x in T.walk(gc))
+    want_lo = [x for x in T.walk(gc) if x[0] == "call" and T.call_name(x) == "min" and x[2] == (S("probs"),)]
+    want_hi = [x for x in T.walk(gc) if x[0] == "call" and T.call_name(x) == "max" and x[2] == (S("probs"),)]
+    chk.add("C15.grid", "a grid not spanning [min p, max p] raises", len(rr) == 1 and bool(want_lo) and bool(want_hi) and lo_ok, f"span test = {T.show(gc)[:240]}", chk.loc(fi))
     # ---------------------------------------------------------------- default delay
     for cls in ("Connection", "BaseNode"):
         fi, ev, r = _ev(model, f"node.{cls}.__init__")
